@@ -79,6 +79,10 @@ func init() {
 				c02PatchIdentity(o, r, cs)
 				continue
 			}
+			if r.Intn(8) == 0 {
+				c02JsonPatchFrame(o, r, cs)
+				continue
+			}
 			f := allFeat()
 			f.Adversarial = true
 			f.Dense = r.Intn(3) == 0
@@ -480,5 +484,78 @@ func c02PatchIdentity(o *oracleRun, r *rand.Rand, cs int64) {
 	}
 	if !found || len(docs) != 2 {
 		o.fail("resource-count", fmt.Sprintf("%d documents in the output, 2 resources in the input", len(docs)), cs, in, len(docs), 2)
+	}
+}
+
+// c02JsonPatchFrame: a JSON 6902 patch rewrites the whole resource through JSON; every value it does not address — numbers,
+// booleans, nulls and number-like strings at any nesting of maps and lists, lists directly inside lists included — comes
+// out with the same type and value.
+func c02JsonPatchFrame(o *oracleRun, r *rand.Rand, cs int64) {
+	leaf := func() interface{} {
+		switch r.Intn(7) {
+		case 0:
+			return float64(r.Intn(100))
+		case 1:
+			return 4.5
+		case 2:
+			return r.Intn(2) == 0
+		case 3:
+			return nil
+		case 4:
+			return pickS(r, []string{"012", "1e3", "yes", "123", "true", "null", "9007199254740993"})
+		case 5:
+			return float64(9007199254740992)
+		}
+		return pickS(r, []string{"x", "a b"})
+	}
+	var gen func(d int) interface{}
+	gen = func(d int) interface{} {
+		if d == 0 || r.Intn(3) == 0 {
+			return leaf()
+		}
+		if r.Intn(2) == 0 {
+			var l []interface{}
+			for i := 0; i < 1+r.Intn(3); i++ {
+				l = append(l, gen(d-1))
+			}
+			return l
+		}
+		m := Obj{}
+		for i := 0; i < 1+r.Intn(2); i++ {
+			m[pickS(r, []string{"a", "b", "c"})] = gen(d - 1)
+		}
+		return m
+	}
+	spec := Obj{"replicas": float64(1), "grid": []interface{}{[]interface{}{float64(1), float64(2)}, []interface{}{float64(3), 4.5, []interface{}{true, nil, "012"}}}, "free": gen(4), "more": gen(3)}
+	res := Obj{"apiVersion": "example.com/v1", "kind": "Widget", "metadata": Obj{"name": "w"}, "spec": spec}
+	rb, _ := yamlMarshal(res)
+	k := "resources:\n- res.yaml\npatches:\n- target: {kind: Widget, name: w}\n  patch: |-\n    - op: replace\n      path: /spec/replicas\n      value: 3\n"
+	fs := filesys.MakeFsInMemory()
+	files := map[string]string{"/w/res.yaml": string(rb), "/w/kustomization.yaml": k}
+	for p, c := range files {
+		fs.WriteFile(p, []byte(c))
+	}
+	in := map[string]interface{}{"scenario": "json-patch-frame", "files": files}
+	out, err, pnc := safeBuild(func() (string, error) { return runBuild(fs, "/w", nil) })
+	if pnc != nil || err != nil {
+		o.note("json-patch-frame-"+errClass(err), in)
+		return
+	}
+	o.note("json-patch-frame-ok", in)
+	docs, _ := parseDocs(out)
+	if len(docs) != 1 {
+		o.fail("resource-count", fmt.Sprintf("%d documents in the output, 1 resource in the input", len(docs)), cs, in, len(docs), 1)
+		return
+	}
+	var inDoc Obj
+	yaml.Unmarshal(rb, &inDoc)
+	var diffs [][]string
+	diffPaths(map[string]interface{}(inDoc), map[string]interface{}(docs[0]), nil, &diffs)
+	for _, d := range diffs {
+		if len(d) == 2 && d[0] == "spec" && d[1] == "replicas" {
+			continue
+		}
+		o.fail("untargeted-field-changed", "a JSON patch on /spec/replicas changed (the value or the type at) "+strings.Join(d, "/"), cs, in, d, nil)
+		break
 	}
 }
